@@ -43,12 +43,40 @@ def split_runs(path):
             codec = line[2:]
         elif line.startswith('T '):
             stats.append('boundary ' + line[2:])
+        elif line.startswith('GB '):
+            stats.append('codecbad ' + line[3:])
         elif line.startswith('# '):
             stats.append(line[2:])
     return runs, names, codec, stats
 
 
 HEX16 = re.compile(r'[0-9a-f]{16}')
+
+
+def dbl_fraction(bits):
+    """exact value of a finite binary64 given by its bit pattern"""
+    from fractions import Fraction
+    neg, ex, man = bits >> 63, (bits >> 52) & 0x7ff, bits & ((1 << 52) - 1)
+    v = Fraction(man, 1 << 1074) if ex == 0 else Fraction((1 << 52) + man) * Fraction(2) ** (ex - 1075)
+    return -v if neg else v
+
+
+def classify_codec_mismatch(xh, printed, yh):
+    """exact (rational arithmetic): is this the known dtoa defect — the read-back double is the neighbour of x and the printed
+    decimal lies at, or at most 1/64 ulp beyond, the rounding boundary (x + y)/2 on y's side?  Anything else is a different defect."""
+    from fractions import Fraction
+    try:
+        xb, yb = int(xh, 16), int(yh, 16)
+        if abs(xb - yb) != 1 or ((xb >> 52) & 0x7ff) == 0x7ff or ((yb >> 52) & 0x7ff) == 0x7ff or printed.endswith('+junk'):
+            return 'codec:g_fmt-strtod-not-exact'
+        x, y, t = dbl_fraction(xb), dbl_fraction(yb), Fraction(printed)
+        mid, ulp = (x + y) / 2, abs(y - x)
+        beyond = (t - mid) if y > x else (mid - t)       # >= 0: on y's side of the boundary
+        if 0 <= beyond <= ulp / 64:
+            return 'codec:boundary-tie-round-trip'
+    except Exception:
+        pass
+    return 'codec:g_fmt-strtod-not-exact'
 
 
 def adjacent_doubles_only(a, b):
@@ -532,26 +560,35 @@ def run(ck):
                          replay_obj(r0, {'first_difference(index, text, binary)': dd}))
     for n in names_bad:
         ck.add_violation('names:differ', 'names file written by the writer is read back differently: %s' % n, {'line': n})
-    if codec:
-        m = re.match(r'tested=(\d+) bad=(\d+) first=(.*)', codec)
-        if m and int(m.group(2)) > 0:
-            ck.add_violation('codec:g_fmt-strtod-not-exact', 'g_fmt -> strtod does not return the same double: %s (%s of %s)' %
-                             (m.group(3), m.group(2), m.group(1)), {'first': m.group(3)})
     # constructed boundary cases of the number codec
     bline = next((s for s in stats if s.startswith('boundary ')), None)
     ck.cov['number_codec_boundary_TEST_not_proof'] = bline
-    if bline:
-        m = re.match(r'boundary tested=(\d+) bad=(\d+) ties=(\d+) first=(.*)', bline)
-        if m and int(m.group(2)) > 0:
-            f = m.group(4).split()
-            adj = len(f) >= 3 and abs(int(f[0], 16) - int(f[2], 16)) == 1
-            ck.add_violation('codec:boundary-tie-round-trip' if adj else 'codec:g_fmt-strtod-not-exact',
-                             'g_fmt prints a decimal on/beyond the rounding boundary x + ulp/2 and strtod reads back the neighbouring double: '
-                             'x=%s printed "%s" read back %s (%s of %s constructed boundary cases, %s of them exact ties)' %
-                             (f[0], f[1] if len(f) > 1 else '?', f[2] if len(f) > 2 else '?', m.group(2), m.group(1), m.group(3)),
-                             {'double_bits': f[0], 'printed': f[1] if len(f) > 1 else None, 'read_back_bits': f[2] if len(f) > 2 else None,
-                              'fixed_example': '4611686018999999488 (43d0000000088857) -> "4.611686019e+18" -> 4611686019000000512 (43d0000000088858)',
-                              'how': 'DAVID_GAY_GFMT::g_fmt(buf, x, 0) then strtod(buf); or h_nlw2 quick 1 <dir> probe-tie (whole file through WriteNLFile/ReadNLFile)'})
+    # every reported codec mismatch (random and constructed stream) is classified exactly
+    by_sig = collections.OrderedDict()
+    for s_ in stats:
+        if s_.startswith('codecbad '):
+            f = s_.split()
+            if len(f) >= 5:
+                by_sig.setdefault(classify_codec_mismatch(f[2], f[3], f[4]), []).append((f[1], f[2], f[3], f[4]))
+    n_reported = sum(len(v) for v in by_sig.values())
+    n_bad_total = 0
+    for ln in (codec, bline and bline[len('boundary '):]):
+        mm_ = re.search(r'bad=(\d+)', ln or '')
+        n_bad_total += int(mm_.group(1)) if mm_ else 0
+    nonadj = re.search(r'nonadjacent=(\d+)', bline or '')
+    ck.cov['codec_mismatches'] = {'total': n_bad_total, 'classified_exactly': n_reported, 'by_signature': {k: len(v) for k, v in by_sig.items()}}
+    for sig, lst in by_sig.items():
+        stream, xh, printed, yh = lst[0]
+        ck.add_violation(sig, ('g_fmt prints a decimal on/just beyond the rounding boundary of x and strtod reads back the neighbouring double'
+                               if sig == 'codec:boundary-tie-round-trip' else 'g_fmt -> strtod does not return the same double')
+                         + ': x=%s printed "%s" read back %s (%d such cases, first from the %s stream; %d mismatches in %s)' %
+                         (xh, printed, yh, len(lst), stream, n_bad_total, (codec or '') + ' | ' + (bline or '')),
+                         {'double_bits': xh, 'printed': printed, 'read_back_bits': yh, 'stream': stream, 'more': lst[1:6],
+                          'fixed_example': '4611686018999999488 (43d0000000088857) -> "4.611686019e+18" -> 4611686019000000512 (43d0000000088858)',
+                          'how': 'DAVID_GAY_GFMT::g_fmt(buf, x, 0) then strtod(buf); or h_nlw2 quick 1 <dir> probe-tie (whole file through WriteNLFile/ReadNLFile)'})
+    if n_reported < n_bad_total and nonadj and int(nonadj.group(1)) > 0:
+        ck.add_violation('codec:g_fmt-strtod-not-exact', '%s codec mismatches beyond the %d classified ones are not one-ulp neighbours' %
+                         (nonadj.group(1), n_reported), {'boundary_line': bline}, found_input=False)
     rcp, errp, po = probes['probe-tie']
     pruns, _, _, _ = split_runs(po)
     for r in pruns:
